@@ -34,7 +34,7 @@ TID_GENERATORS = [
 
 @rule('C04.R1', 'a tid derived from the clock is made later than the '
       'previous tid before it is used, and becomes the new basis',
-      props=['C02'], min_instances=3)
+      props=['C02', 'C16'], min_instances=3)
 def r1(R):
     for q, fname, sink in TID_GENERATORS:
         if q is not None:
